@@ -260,26 +260,40 @@ impl KrpcSocket {
 
     fn is_expected_response(&mut self, message: &Message, from: &SocketAddrV4) -> bool {
         // Positive or an error response or to an inflight request.
-        match self.inflight_requests.remove(message.transaction_id) {
+        let tid = message.transaction_id;
+
+        match self.inflight_requests.find(tid) {
             Some(request) => {
-                if compare_socket_addr(&request.to, from) {
-                    return true;
-                } else {
+                if !compare_socket_addr(&request.to, from) {
+                    // Leave the request inflight for the address it was sent to.
                     trace!(
                         context = "socket_validation",
                         message = "Response from wrong address"
                     );
+
+                    return false;
                 }
             }
             None => {
                 trace!(
                     context = "socket_validation",
-                    message = "Unexpected response id, or timedout request"
+                    message = "Unexpected response id"
                 );
+
+                return false;
             }
         }
 
-        false
+        let in_time = self.inflight_requests.get(tid).is_some();
+
+        // Late responses still update the round trip time estimates.
+        self.inflight_requests.remove(tid);
+
+        if !in_time {
+            trace!(context = "socket_validation", message = "Timedout request");
+        }
+
+        in_time
     }
 
     /// Set transactin_id, version and read_only
@@ -412,6 +426,13 @@ impl InflightRequests {
         }
 
         None
+    }
+
+    /// Returns the request with this transaction_id, even if it timed out.
+    fn find(&self, key: u32) -> Option<&InflightRequest> {
+        self.find_by_tid(key)
+            .ok()
+            .and_then(|index| self.requests.get(index))
     }
 
     /// Adds a [InflightRequest] with new transaction_id, and returns that id.
